@@ -63,6 +63,8 @@ class Projector:
             return {'op': 'cut'}
         if T == 'EmptyClosure':
             return {'op': 'emptyclosure'}
+        if T == 'Alert':
+            return {'op': 'oalert'}            # the message is evaluated like a constant (value from the "const" event), nothing is appended
         if T == 'Constant':
             if isinstance(m.literal, str):
                 return {'op': 'oconst'}        # evaluated value comes from the recorded "const" event
